@@ -19,6 +19,11 @@ from .sym import Ctx, Unsupported, explore, to_bterm, run_in
 from .folds import SigmaTheory, Base
 
 
+class FrameViolation:
+    def __init__(self, site):
+        self.site = site
+
+
 class Ob:
     def __init__(self, name, status, **kw):
         self.name = name
@@ -99,8 +104,100 @@ def refute(c, goal, kmax=3, timeout_ms=10000):
     return None, None
 
 
+def _shallow(v):
+    """identity-level description of an attribute value (containers: identity of their elements)"""
+    from .folds import Seq
+    if type(v) is Seq:
+        return ("seq", id(v), tuple(id(x) for x in v.segs))
+    if type(v) is list:
+        return ("list", id(v), tuple(id(x) for x in v))
+    if type(v) is dict:
+        return ("dict", id(v), tuple((k if isinstance(k, (str, int)) else id(k), id(x)) for k, x in v.items()))
+    if type(v) is set:
+        return ("set", id(v), len(v))
+    return ("obj", id(v))
+
+
+def heap_snapshot(c, roots):
+    """snapshot of every pre-existing object reachable from `roots` (through __dict__, lists, Seq elements) and of
+    the mutable module-level containers of the loaded repository modules"""
+    from .folds import Seq, Gen
+    snap = {}
+    seen = set()
+    stack = [(n, o) for n, o in roots]
+    while stack:
+        name, o = stack.pop()
+        if id(o) in seen or o is None or type(o) in (int, str, bool, float, tuple):
+            continue
+        seen.add(id(o))
+        d = getattr(o, "__dict__", None)
+        if type(o).__name__ in ("AbsNode", "AbsEnv", "UnionEnv", "Family", "Base", "SInt", "SBool", "SId"):
+            continue
+        if type(o) is Seq:
+            for k, seg in enumerate(o.segs):
+                e = seg.elem if type(seg) is Gen else seg[1]
+                stack.append((f"{name}[{k}]", e))
+            continue
+        if type(o) is list:
+            for k, e in enumerate(o):
+                stack.append((f"{name}[{k}]", e))
+            continue
+        if isinstance(d, dict) and not isinstance(o, type) and type(o).__module__.startswith("puan"):
+            snap[id(o)] = (name, o, {k: _shallow(v) for k, v in d.items()})
+            for k, v in d.items():
+                stack.append((f"{name}.{k}", v))
+    mods = {}
+    for mname, mod in c.repo.mods.items():
+        for k, v in mod.__dict__.items():
+            if type(v) in (dict, list, set) and not k.startswith("__"):
+                mods[(mname, k)] = _shallow(v)
+            elif isinstance(v, type) and v.__module__ == mname:
+                for ck, cv in v.__dict__.items():
+                    if type(cv) in (dict, list, set):
+                        mods[(mname, f"{k}.{ck}")] = _shallow(cv)
+    return snap, mods
+
+
+def heap_diff(c, snapshot, memo_fields=()):
+    snap, mods = snapshot
+    sites = []
+    for oid, (name, o, before) in snap.items():
+        now = {k: _shallow(v) for k, v in o.__dict__.items()}
+        for k in set(before) | set(now):
+            if k in memo_fields:
+                continue
+            if before.get(k) != now.get(k):
+                sites.append(f"{type(o).__name__}:{name}.{k}")
+    _, mods_now = heap_snapshot(c, [])
+    for key, before in mods.items():
+        if mods_now.get(key) != before:
+            sites.append(f"module:{key[0]}.{key[1]}")
+    for key in mods_now:
+        if key not in mods:
+            sites.append(f"module:{key[0]}.{key[1]} (new)")
+    for s in getattr(c, "stores", []):
+        if s[0] == "seq" and any(s[1] is v for _, _o, _b in snap.values() for v in _o.__dict__.values()):
+            sites.append(f"seq-mutation:{s[2]}")
+    return sorted(set(sites))
+
+
 class Harness:
     """Base class: one function of the repository under contract."""
+    frame = False          # check `modifies nothing pre-existing` (C09)
+    memo_fields = ()       # declared per-instance memo fields (DESIGN 3.4)
+
+    def snapshot(self, c, st):
+        if not self.frame:
+            return None
+        roots = [(k, v) for k, v in st.items()] if isinstance(st, dict) else [("st", st)]
+        return heap_snapshot(c, roots)
+
+    def frame_check(self, c, st, snap, res):
+        sites = heap_diff(c, snap, self.memo_fields)
+        if not sites:
+            return [("frame", True)]
+        return [(f"frame[{self.function}:{s.split(':', 1)[1]}]", FrameViolation(s)) for s in sites]
+
     name = "?"
     function = "?"       # qualified name in the repository
     module = "puan.logic.plog"
@@ -164,8 +261,11 @@ def verify(h, repo, tier="quick", log=None):
                 if type(e).__name__ in ("TypeError", "AttributeError", "NotImplementedError", "RecursionError") \
                         and not isinstance(e, h.expected_raises):
                     raise Unsupported(f"{type(e).__name__} under symbolic execution: {e}")
-                return ("raise", e, h.ensures_raise(c, st, e), st)
-            goals = list(h.ensures(c, st, res))
+                goals = list(h.ensures_raise(c, st, e))
+                if snap is not None:
+                    goals += list(h.frame_check(c, st, snap, None))
+                return ("raise", e, goals, st)
+            goals = list(h.ensures(c, st, res)) if not getattr(h, "frame_only", False) else []
             if snap is not None:
                 goals += list(h.frame_check(c, st, snap, res))
             return ("ok", res, goals, st)
@@ -195,6 +295,14 @@ def verify(h, repo, tier="quick", log=None):
                     obs.append(Ob(pname + "/feasible", "PROVED", backend="path", time=0.0, case=case))
                 for gname, goal in goals:
                     oname = f"{pname}/{gname}"
+                    if isinstance(goal, FrameViolation):
+                        obs.append(Ob(oname, "REFUTED", backend="frame-snapshot", kind="frame", case=case, witness=None,
+                                      model={"store": goal.site, "path_decisions": str(c.frames[0].decisions[: c.frames[0].pos])},
+                                      outcome=kind))
+                        continue
+                    if gname == "frame" and goal is True:
+                        obs.append(Ob(oname, "PROVED", backend="frame-snapshot", time=0.0, case=case, outcome=kind))
+                        continue
                     try:
                         gt = to_bterm(goal)
                     except Unsupported as e:
